@@ -378,4 +378,94 @@ SCENARIO(aq_2x2) {
   w.finish();
 }
 
+// ------------------------------------------------------------------ static_thread_pool
+namespace {
+using PoolSched = decltype(std::declval<unifex::static_thread_pool&>().get_scheduler());
+struct PoolWorld : World {
+  Ops<PoolSched> ops{*this};
+  PoolWorld(int items, int k) { n = items; fifo = false; for (int i = 1; i <= k; ++i) ctx_threads.insert(i); }
+  void after_dtor() {
+    dtor_ended = true;
+    rt::obs("dtor.end");
+    if (rt::alive() != 1) rt::fail("~static_thread_pool returned while %d other thread(s) still run", rt::alive() - 1);
+    finish(true);
+  }
+};
+}  // namespace
+
+SCENARIO(pool_1) {
+  PoolWorld w(2, 1);
+  {
+    unifex::static_thread_pool pool(1);          // T1
+    auto sched = pool.get_scheduler();
+    w.ops.enq(sched, 0); w.ops.enq(sched, 1);
+    w.stop_begun = true;
+    rt::obs("dtor.begin");
+  }
+  w.after_dtor();
+}
+SCENARIO(pool_2a) {
+  PoolWorld w(1, 2);
+  {
+    unifex::static_thread_pool pool(2);          // T1, T2
+    auto sched = pool.get_scheduler();
+    w.ops.enq(sched, 0);
+    w.stop_begun = true;
+    rt::obs("dtor.begin");
+  }
+  w.after_dtor();
+}
+SCENARIO(pool_2b) {
+  PoolWorld w(2, 2);
+  {
+    unifex::static_thread_pool pool(2);
+    auto sched = pool.get_scheduler();
+    w.ops.enq(sched, 0); w.ops.enq(sched, 1);
+    w.stop_begun = true;
+    rt::obs("dtor.begin");
+  }
+  w.after_dtor();
+}
+SCENARIO(pool_2c) {
+  PoolWorld w(2, 2);
+  {
+    unifex::static_thread_pool pool(2);
+    auto sched = pool.get_scheduler();
+    int t3 = rt::spawn([&] { w.ops.enq(sched, 1); });
+    w.ops.enq(sched, 0);
+    rt::join(t3);
+    w.stop_begun = true;
+    rt::obs("dtor.begin");
+  }
+  w.after_dtor();
+}
+
+// ------------------------------------------------------------------ new_thread_context
+namespace {
+using NtSched = decltype(std::declval<unifex::new_thread_context&>().get_scheduler());
+struct NtWorld : World {
+  Ops<NtSched> ops{*this};
+  explicit NtWorld(int items) { n = items; fifo = false; for (int i = 1; i <= items; ++i) ctx_threads.insert(i); }
+  void run_all() {
+    {
+      unifex::new_thread_context ctx;
+      auto sched = ctx.get_scheduler();
+      for (int i = 0; i < n; ++i) ops.enq(sched, i);
+      stop_begun = true;
+      rt::obs("dtor.begin");
+    }
+    dtor_ended = true;
+    rt::obs("dtor.end");
+    if (rt::alive() != 1) rt::fail("~new_thread_context returned while %d other thread(s) still run", rt::alive() - 1);
+    for (int i = 0; i < n; ++i)
+      if (completions[i] == 1 && completed_on[i] != 1 + i) rt::fail("item%d completed on T%d, expected its own new thread T%d", i, completed_on[i], 1 + i);
+    finish(true);
+  }
+};
+}  // namespace
+
+SCENARIO(nt_1) { NtWorld w(1); w.run_all(); }
+SCENARIO(nt_2) { NtWorld w(2); w.run_all(); }
+SCENARIO(nt_3) { NtWorld w(3); w.run_all(); }
+
 RT_MAIN()
